@@ -33,10 +33,12 @@ class C16(Prop):
             tasks = []
             for t in range(nt):
                 u = rng.random()
-                kind = 'raise' if u < pr else 'code' if u < pr + pc else 'num' if rng.random() < 0.12 else 'ok'
+                kind = 'raise' if u < pr else 'code' if u < pr + pc else rng.choice(['num', 'num', 'none']) if rng.random() < 0.18 else 'ok'
                 tk = {'tid': t, 'kind': kind, 'dur': rng.choice([0.0, 0.001, 0.005, 0.02]) * (0.2 if nt > 50 else 1), 'size': rng.choice([0, 10, 1000, 200000])}
                 if kind == 'ok' and rng.random() < 0.4:
                     tk['lnpdf'] = {'values': [rng.uniform(-50, 0), float('-inf'), rng.uniform(-5, 5)], 'dV': rng.choice([1, 0.5, 2.0, 1e-3])}
+                    if rng.random() < 0.4:      # a result holding two log-PDF objects (one per event, say)
+                        tk['lnpdf']['second'] = {'values': [rng.uniform(-50, 0), rng.uniform(-5, 5)], 'dV': rng.choice([1, 0.25, 3.0])}
                 tasks.append(tk)
             if tasks and rng.random() < 0.5:
                 tasks[-1]['kind'] = rng.choice(['code', 'raise', 'code'])      # the last outstanding result is a status code / exception
@@ -51,6 +53,17 @@ class C16(Prop):
                     ops.append(['result'])
                     pending_real -= 1
             ops.append(['all'])
+            yield {'kind': 'schedule', 'workers': nw, 'tasks': tasks, 'ops': ops}
+        # fixed shapes every run sees: tasks without a return value, and results that hold two log-PDF objects
+        for nw in (1, 3):
+            tasks = []
+            for t in range(7):
+                tk = {'tid': t, 'kind': 'none' if t in (1, 3, 6) else 'ok', 'dur': rng.choice([0.0, 0.002, 0.01]), 'size': rng.choice([0, 100, 50000])}
+                if t in (0, 4):
+                    tk['lnpdf'] = {'values': [rng.uniform(-50, 0), float('-inf'), rng.uniform(-5, 5)], 'dV': rng.choice([0.5, 2.0]),
+                                   'second': {'values': [rng.uniform(-50, 0), rng.uniform(-5, 5)], 'dV': rng.choice([0.25, 3.0])}}
+                tasks.append(tk)
+            ops = [['submit', t] for t in range(4)] + [['result']] + [['submit', t] for t in range(4, 7)] + [['all']]
             yield {'kind': 'schedule', 'workers': nw, 'tasks': tasks, 'ops': ops}
 
     def corpus(self):
@@ -111,7 +124,7 @@ class C16(Prop):
                 rows.append((int(t[0]), t[1], t[2], t[3], t[4]))
         rows.sort(key=lambda r: r[0])
         kinds = {t['tid']: t['kind'] for t in case['tasks']}
-        kcode = {'ok': 0, 'raise': 1, 'code': 2, 'num': 0}
+        kcode = {'ok': 0, 'raise': 1, 'code': 2, 'num': 0, 'none': 0}
         nw = case['workers']
         slot_of, owner, shadow = {}, [None] * nw, ['i'] * nw
         last_task = {}
@@ -180,7 +193,7 @@ class C16(Prop):
                         shadow[w] = 'i'
                     if k is not None and kinds[k] == 'code':
                         code_ready.append(k)
-                    if k is not None and kinds[k] == 'num':
+                    if k is not None and kinds[k] in ('num', 'none'):
                         num_ready.setdefault(payload, []).append(k)
         return ev
 
@@ -213,7 +226,7 @@ class C16(Prop):
         states = t[p + 1:p + 1 + nwk]
         real = [r['tid'] for r in impl['returned']]
         knd = {t['tid']: t['kind'] for t in case['tasks']}
-        collected = [None if knd.get(t) == 'num' else t for t in collected]      # numeric results carry no task id
+        collected = [None if knd.get(t) in ('num', 'none') else t for t in collected]      # numeric results carry no task id
         if collected != real:
             out.append(('results handed to the caller: model %r, implementation %r' % (collected, real), None))
         if nj != impl['number_jobs']:
@@ -240,7 +253,7 @@ class C16(Prop):
         out = []
         kinds = {t['tid']: t for t in case['tasks']}
         real = impl['returned']
-        expect = sorted(t['tid'] for t in case['tasks'] if t['kind'] not in ('code', 'num'))
+        expect = sorted(t['tid'] for t in case['tasks'] if t['kind'] not in ('code', 'num', 'none'))
         got = sorted(r['tid'] for r in real if r['tid'] is not None)
         if any(r['tid'] is None and r.get('type') != 'num' for r in real):
             out.append(('foreign-result', 'a value that is no task result was returned: %r' % [r for r in real if r['tid'] is None and r.get('type') != 'num'][:2], None))
@@ -249,6 +262,10 @@ class C16(Prop):
             have = sum(1 for r in real if r.get('type') == 'num' and r.get('value') == v)
             if want != have:
                 out.append(('numeric-result', '%d tasks returned the number %r as their result, %d such results were delivered' % (want, v, have), None))
+        want = sum(1 for t in case['tasks'] if t['kind'] == 'none')
+        have = sum(1 for r in real if r.get('type') == 'num' and r.get('value') is None)
+        if want != have:
+            out.append(('none-result', '%d tasks returned None as their result, %d such results were delivered' % (want, have), None))
         if got != expect:
             missing = sorted(set(expect) - set(got))
             dup = sorted({x for x in got if got.count(x) > 1})
@@ -268,6 +285,10 @@ class C16(Prop):
                     exp = t['lnpdf']
                     if not lp or lp['cls'] != 'LnPDF' or lp['values'] != exp['values'] or lp['dV'] != exp['dV']:
                         out.append(('lnpdf', 'log-PDF of task %d arrived as %r, sent %r' % (r['tid'], lp, exp), None))
+                    if 'second' in exp:
+                        lp, e2 = r.get('lnpdf_b'), exp['second']
+                        if not lp or lp['cls'] != 'LnPDF' or lp['values'] != e2['values'] or lp['dV'] != e2['dV']:
+                            out.append(('lnpdf', 'second log-PDF of task %d arrived as %r, sent %r' % (r['tid'], lp, e2), None))
         if impl['number_jobs'] != 0:
             out.append(('count', 'number_jobs is %d after collecting everything' % impl['number_jobs'], None))
         if any(impl['alive_after_close']):
